@@ -530,14 +530,14 @@ def shrink(prop, prop_id, c, tier, seed):
     if not cur["diffs"]:
         cur["diffs"] = ["(not reproducible in isolation)"]
         return cur
-    deadline = time.time() + (60 if tier == "quick" else 300)
+    deadline = time.time() + (40 if tier == "quick" else 300)
     improved = True
     while improved and time.time() < deadline:
         improved = False
         cands = []
         for t in shrink_candidates(from_text(cur["input"])):
             cands.append(t)
-            if len(cands) >= 64:
+            if len(cands) >= 32:
                 break
         if not cands:
             break
